@@ -328,10 +328,18 @@ class FnItem:
 
 class IterM:
     """Iterator model: `items` is a list of already-produced element values (or thunks); adapters wrap `nextf`."""
-    __slots__ = ('nextf', 'kind', 'back')
+    __slots__ = ('nextf', 'kind', 'back', 'src', 'remaining')
 
-    def __init__(self, nextf, kind='iter', back=None):
-        self.nextf, self.kind, self.back = nextf, kind, back
+    def __init__(self, nextf, kind='iter', back=None, src=None, remaining=None):
+        self.nextf, self.kind, self.back, self.src, self.remaining = nextf, kind, back, src, remaining
+
+    def exact_len(self):
+        """number of elements left, for length-preserving adapter chains over a finite base"""
+        if self.remaining is not None:
+            return self.remaining()
+        if self.src is not None and self.kind in ('map', 'enumerate', 'copied', 'rev'):
+            return self.src.exact_len()
+        return None
 
 
 class Opaque:
